@@ -31,6 +31,8 @@ CHAIN_MODULES = ['convolve.convolve', 'convolve.monochromatic', 'models', 'fit',
 def run(ctx):
     from . import c14
     c14.check_get_av(ctx)        # the A_V reported is in units of the law normalised at 0.55 micron, whatever unit the law is tabulated in
+    from . import c06
+    c06.check_rebin_cache(ctx)   # every model is convolved with the filters re-binned onto its own spectral grid
     repo = ctx.repo
     # hop 1: names <-> files, rows of the convolved tables
     from .. import roundtrip
